@@ -484,17 +484,30 @@ CHECKS += [
 
 CHECKS += [
     dict(property_id="C74", category="proof", engine=E1,
-         text="(A) 15 circuits over the MBQC gate set (H, S, RZ, RotXZX, CNOT, physical Paulis; single gates, sequences, wires appearing in non-sorted order, sequences long "
+         text="(A) 16 circuits over the MBQC gate set (H, S, RZ, RotXZX, CNOT, physical Paulis; single gates, sequences, wires appearing in non-sorted order, sequences long "
               "enough to recycle released qubits) through the REAL convert_to_mbqc_formalism (diagonalize_mcms=True; False followed by the REAL diagonalize_mcms transform). "
               "The resulting dynamic circuit runs in the active-set interpreter vf.mbqc with EVERY measurement outcome a solver bit (4 per single-qubit gate, 13 per CNOT), an "
               "arbitrary symbolic input state and symbolic angles; z3 proves for all outcomes, inputs and angles that the output wires carry U|psi> up to a scalar, every other "
-              "wire is back in |0>, and every outcome pattern has weight 2^-k. (B) The online corrections are removed and replaced by those of the REAL offline Pauli tracker "
+              "wire is back in |0>, and every outcome pattern has weight 2^-k. (B) The online corrections and the circuit's own Pauli gates are removed (Pauli-frame semantics) and replaced by the frame of the REAL offline Pauli tracker "
               "(_parse_mid_measurements, _get_xz_record, commute_clifford_op run on the symbolic outcome bits): the same proportionality is proved, i.e. the recorded frame is "
-              "exactly the byproduct X^x Z^z of the uncorrected run; commute_clifford_op is compared with matrix conjugation for every Pauli frame of H, S, CNOT.",
+              "exactly what separates the uncorrected run from U|psi>; commute_clifford_op is compared with matrix conjugation for every Pauli frame of H, S, CNOT.",
          note=PROOF_NOTE + " Quick tier: circuits without CNOT (seconds to 2 minutes); the CNOT pattern (13 symbolic outcomes, 8192 branches proved at once, ~5 minutes per instance) and the heaviest "
               "sequences run in the thorough tier. For the two wire-recycling sequences the first 4 outcomes are symbolic and the later ones all 0 / all 1. Outside: finite-shot "
-              "sampling, non-integer wire labels in the tracker, more than 2 logical wires.",
+              "sampling, non-integer wire labels in the tracker, more than 2 logical wires; S.Y.RotXZX and H(1).CNOT(0,1) were tried and dropped (undecided weight obligation / more than 40 minutes and 12 GB per item).",
          technique="symbolic-outcome active-set interpretation of the real MBQC conversion and Pauli tracker on z3 polynomial terms (multilinear normal form in the outcome bits); z3 QF_NRA validity queries"),
+]
+
+CHECKS += [
+    dict(property_id="C54", category="other", engine=E1,
+         text="Partial (words enumerated, coefficients symbolic): bosonic sentences over 2 modes with SYMBOLIC complex coefficients (10 words: ladder, number, b b^dag, squares, hopping, "
+              "mixed products, identity) through the REAL binary_mapping (n_states 2-5), unary_mapping (2-4) and christiansen_mapping (ps=True). The image is turned into matrix columns by "
+              "an independent Pauli-string routine; z3 proves for all coefficients in the unit box: every entry between encoded basis states equals sum_k c_k * product of the truncated "
+              "ladder matrices of word k in word order (each mapping's documented encoding), no amplitude leaves the encoded subspace, M(s1 + s2) == M(s1) + M(s2) and "
+              "M(adjoint(s)) == adjoint(M(s)) Pauli word by Pauli word.",
+         note=PROOF_NOTE + " Matrix identities up to 1e-9 (floating square roots). Each obligation is first tried as a linear relaxation over the unit box (monomials as independent variables in "
+              "[-1, 1], QF_LRA), then as the exact non-linear query under the path condition. Category 'other' (partial): the words are a fixed list, not symbolic; more than 2 modes, higher "
+              "truncations, wire_map / tol options and the bosonic arithmetic (normal ordering) are outside.",
+         technique="lifted execution of the boson mappings on z3 complex coefficient terms; z3 QF_LRA relaxation / QF_NRA entry-wise proofs against truncated ladder matrices"),
 ]
 
 _NOT_BUILT = "claimed in DESIGN.md §4 but its solver-based check is not built yet in this tree"
@@ -513,7 +526,6 @@ NOT_APPLICABLE_REASONS = {
     "C42": "program capture requires JAX tracing",
     "C48": "interface agnosticism: torch/jax/autograd kernels cannot carry solver terms",
     "C52": "observable grouping: rustworkx/networkx colouring over discrete sets",
-    "C54": "boson mappings: discrete words with floating sqrt(n) coefficients; no symbolic dimension",
     "C55": "Lie-algebra tools: rank/independence via SVD/least squares",
     "C57": "state preparation: angles from arccos/arctan2 of amplitudes",
     "C58": "block-encoding/oracle templates: QSVT/GQSP angle solvers, sqrtm/svd; no closed-form symbolic matrices",
